@@ -12,7 +12,8 @@ def build(t):
     out = []
     for tr in t["trees"]:
         n = len(tr["par"])
-        A = sp.lil_matrix((n, n))
+        # the adjacency matrix may arrive with any numeric dtype (networkx / scipy give integers, booleans are common too)
+        A = sp.lil_matrix((n, n), dtype={"float": np.float64, "int": np.int64, "bool": np.bool_, "float32": np.float32}[t.get("adj", "float")])
         for v, p in enumerate(tr["par"]):
             if p > 0:
                 A[p - 1, v] = 1
@@ -25,8 +26,15 @@ def run(item):
     from vectorizers.tree_token_cooccurrence import LabelledTreeCooccurrenceVectorizer as C
     t, V = item["inst"], item["V"]
     kw = dict(window_radius=t["r"], kernel_function=t["kernel"], window_orientation=t["orient"])
+    ka = {}
+    if t.get("knorm"):
+        ka["normalize"] = True
+    if t.get("offset"):
+        ka["offset"] = int(t["offset"])
     if t["kernel"] == "geometric":
-        kw["kernel_args"] = {"power": 0.5}
+        ka["power"] = 0.5
+    if ka:
+        kw["kernel_args"] = ka
     if t["excluded"]:
         kw["ignored_tokens"] = set(TOKS[i] for i in t["excluded"])
     if t["mask"]:
@@ -80,10 +88,12 @@ def run(item):
     except Exception as e:  # noqa
         fails.append({"what": "raised", "exc": type(e).__name__ + ": " + str(e)[:200]})
     # path graphs: the token co-occurrence vectorizer on the label sequences must give the same cells
-    if item.get("path") and t["orient"] in ("after", "before", "directional") and not fails:
+    if item.get("path") and t["orient"] in ("after", "before", "directional") and not fails and not t.get("knorm"):
         try:
             from vectorizers.token_cooccurrence_vectorizer import TokenCooccurrenceVectorizer as TC
             ka = {"power": 0.5} if t["kernel"] == "geometric" else {}
+            if t.get("offset"):
+                ka["offset"] = int(t["offset"])
             tk = dict(window_radii=t["r"], kernel_functions=t["kernel"], kernel_args=ka, window_orientations=t["orient"],
                       normalize_windows=False)
             if t["excluded"]:
